@@ -2052,3 +2052,212 @@ Section Progress.
     - contradiction Hnc. reflexivity.
   Qed.
 End Progress.
+
+(* ================================================================== *)
+(* C03: hypothesis H3 of progress_partial is an invariant - a Shutdown waiting in its select has its waiter *)
+Definition is_select (i : instr) : bool := match i with IShutdownSelect _ _ => true | _ => false end.
+Definition nosel (c : list instr) : Prop := forall i, In i c -> is_select i = false.
+Lemma nosel_app a b : nosel a -> nosel b -> nosel (a ++ b).
+Proof. intros Ha Hb i Hi. apply in_app_or in Hi. destruct Hi; auto. Qed.
+Lemma nosel_cons i c : is_select i = false -> nosel c -> nosel (i :: c).
+Proof. intros Hi Hc x [<-|Hx]; auto. Qed.
+Lemma nosel_nil : nosel []. Proof. intros i []. Qed.
+Lemma nosel_tl c : nosel c -> nosel (tl c).
+Proof. intros H i Hi. apply H. destruct c; [contradiction | right; exact Hi]. Qed.
+Lemma nosel_acts l : nosel (acts l).
+Proof. intros i Hi. unfold acts in Hi. apply in_map_iff in Hi. destruct Hi as [a [<- _]]. reflexivity. Qed.
+Lemma nosel_entries p l : nosel (map (IEntry p) l).
+Proof. intros i Hi. apply in_map_iff in Hi. destruct Hi as [a [<- _]]. reflexivity. Qed.
+Lemma nosel_shards l : nosel (map IClearShard l).
+Proof. intros i Hi. apply in_map_iff in Hi. destruct Hi as [a [<- _]]. reflexivity. Qed.
+Lemma nosel_after_recover cfg p h async panicked : nosel (after_recover cfg p h async panicked).
+Proof.
+  unfold after_recover. repeat apply nosel_app;
+    [destruct (h_seq (r_spec h)) | destruct (panicked && c_panic_handler cfg) | destruct (c_obs cfg) | destruct async];
+    try apply nosel_nil; intros i [<-|[]]; reflexivity.
+Qed.
+Lemma nosel_call_handler P p h async obs : nosel (call_handler P p h async obs).
+Proof.
+  unfold call_handler. repeat apply nosel_app; try apply nosel_acts;
+    [destruct obs | destruct (h_seq (r_spec h)) | | ]; try apply nosel_nil; intros i [<-|[]]; reflexivity.
+Qed.
+Lemma nosel_unwind l p h async r : unwind l = Some (p, h, async, r) -> nosel l -> nosel r.
+Proof.
+  intros U Hl. apply unwind_spec in U. destruct U as [pre [-> _]]. intros i Hi. apply Hl.
+  apply in_or_app. right. right. exact Hi.
+Qed.
+
+Ltac ns_tac Nr :=
+  repeat first
+    [ exact Nr
+    | apply nosel_nil
+    | apply nosel_after_recover
+    | apply nosel_call_handler
+    | apply nosel_acts
+    | apply nosel_entries
+    | apply nosel_shards
+    | apply nosel_cons; [reflexivity|]
+    | apply nosel_app
+    | match goal with |- nosel (if ?b then _ else _) => destruct b end
+    | match goal with |- nosel (match ?b with _ => _ end) => destruct b end
+    | (let i := fresh in let H := fresh in intros i H; destruct H as [<-|[]]; reflexivity)
+    | (let i := fresh in let H := fresh in intros i H; destruct H) ].
+
+(* a step either introduces no Shutdown select into the stepping goroutine's code, or it is the Shutdown call itself,
+   which puts the select at the head and spawns the waiter *)
+Lemma step_select P cfg s a i rest s' ls :
+  nosel rest -> step_instr P cfg s a i rest = Some (s', ls) ->
+  exists newc, assoc_get (code s') a = Some newc /\
+    (nosel newc \/
+     (exists c, i = IDo (AShutdown c) /\ newc = IShutdownSelect (next_sid s) c :: rest /\
+                (a <> next_actor s -> assoc_get (code s') (next_actor s) = Some [IWaiterDone (next_sid s)]))).
+Proof.
+  intros Nr H. destruct i; cbn [step_instr] in H.
+  all: try (break_head H; try discriminate; inversion H; subst; clear H;
+            solve [eexists; split;
+                   [first [apply code_cont | (cbn [cont set_code code]; rewrite ?upd_pub_code; apply assoc_get_set_same)]
+                   | left; ns_tac Nr]]).
+  - (* IDo *)
+    destruct a0; cbn [step_instr] in H; break_head H; try discriminate; inversion H; subst; clear H;
+      try solve [eexists; split;
+                 [first [apply code_cont | (cbn [cont set_code code]; rewrite ?upd_pub_code; apply assoc_get_set_same)]
+                 | left; ns_tac Nr]].
+    + (* AShutdown *)
+      eexists. split; [apply code_cont|]. right. exists c. split; [reflexivity|]. split; [reflexivity|].
+      intros Hne. cbn [cont set_code code]. rewrite assoc_get_set_other by congruence. apply assoc_get_set_same.
+    + (* APanic recovered *)
+      match goal with U : unwind rest = Some (?p, ?h, ?async, ?r) |- _ => pose proof (nosel_unwind rest p h async r U Nr) as Nr2 end.
+      eexists. split; [apply code_cont|]. left. apply nosel_app; [apply nosel_after_recover | exact Nr2].
+Qed.
+
+Ltac fin_frame2 :=
+  let x := fresh "x" in let Hx := fresh "Hx" in
+  intros x Hx; left; cbn [cont set_code code]; rewrite ?upd_pub_code; cbn [code];
+  rewrite assoc_get_set_other by congruence; reflexivity.
+
+Lemma step_frame2 P cfg s a i rest s' ls :
+  step_instr P cfg s a i rest = Some (s', ls) -> a <> next_actor s ->
+  forall b, b <> a ->
+    assoc_get (code s') b = assoc_get (code s) b \/
+    (b = next_actor s /\
+     ((exists p h, assoc_get (code s') b = Some [ITaskStart p h]) \/
+      (exists c, i = IDo (AShutdown c) /\ assoc_get (code s') b = Some [IWaiterDone (next_sid s)]))).
+Proof.
+  intros H Hna.
+  destruct i; cbn [step_instr] in H.
+  all: try (break_head H; try discriminate; inversion H; subst; clear H; solve [fin_frame2]).
+  - (* IDo *)
+    destruct a0; cbn [step_instr] in H; break_head H; try discriminate; inversion H; subst; clear H;
+      try solve [fin_frame2].
+    intros b Hb. cbn [cont set_code code]. rewrite assoc_get_set_other by congruence.
+    destruct (Nat.eq_dec (next_actor s) b) as [<-|N].
+    + right. split; [reflexivity|]. right. exists c. split; [reflexivity | apply assoc_get_set_same].
+    + left. rewrite assoc_get_set_other by exact N. reflexivity.
+  - (* IDispatch async *)
+    break_head H; try discriminate; inversion H; subst; clear H; try solve [fin_frame2].
+    intros b Hb. cbn [cont set_code code]. rewrite assoc_get_set_other by congruence.
+    destruct (Nat.eq_dec (next_actor s) b) as [<-|N].
+    + right. split; [reflexivity|]. left. exists p, h. apply assoc_get_set_same.
+    + left. rewrite assoc_get_set_other by exact N. reflexivity.
+Qed.
+
+Lemma upd_pub_waiters s p f : waiters_done (upd_pub s p f) = waiters_done s.
+Proof. unfold upd_pub. destruct (assoc_get (pubs s) p); reflexivity. Qed.
+Lemma upd_pub_next_sid s p f : next_sid (upd_pub s p f) = next_sid s.
+Proof. unfold upd_pub. destruct (assoc_get (pubs s) p); reflexivity. Qed.
+
+Lemma waiters_step P cfg s a i rest s' ls :
+  step_instr P cfg s a i rest = Some (s', ls) ->
+  match i with
+  | IWaiterDone sid => waiters_done s' = sid :: waiters_done s
+  | _ => waiters_done s' = waiters_done s
+  end.
+Proof.
+  intros H. destruct i; cbn [step_instr] in H.
+  all: try (break_head H; try discriminate; inversion H; subst; clear H;
+            solve [cbn [cont set_code waiters_done]; rewrite ?upd_pub_waiters; reflexivity]).
+Qed.
+
+Record h3inv (s : bstate) : Prop := {
+  h3_head : forall a c, assoc_get (code s) a = Some c -> nosel (tl c);
+  h3_waiter : forall a sid c rest, assoc_get (code s) a = Some (IShutdownSelect sid c :: rest) ->
+                memb sid (waiters_done s) = true \/ exists w r, assoc_get (code s) w = Some (IWaiterDone sid :: r)
+}.
+
+Lemma memb_cons x y l : memb x l = true -> memb x (y :: l) = true.
+Proof. unfold memb. cbn. intros ->. apply orb_true_r. Qed.
+
+Lemma h3inv_step P cfg s b s' ls : winv s -> h3inv s -> mstep P cfg s b = Some (s', ls) -> h3inv s'.
+Proof.
+  intros WI [Hh Hw] H. unfold mstep in H.
+  destruct (assoc_get (code s) b) as [[|i rest]|] eqn:Hb; try discriminate.
+  pose proof (Hh b _ Hb) as Nr. cbn [tl] in Nr.
+  assert (Hnb : b <> next_actor s) by (destruct (wi_bound s WI b _ Hb); lia).
+  destruct (step_select P cfg s b i rest s' ls Nr H) as [newc [Hnew Hsel]].
+  pose proof (step_frame2 P cfg s b i rest s' ls H Hnb) as F.
+  pose proof (waiters_step P cfg s b i rest s' ls H) as Wd.
+  assert (Wmono : forall x, memb x (waiters_done s) = true -> memb x (waiters_done s') = true).
+  { intros x Hx. destruct i; try (rewrite Wd; exact Hx). rewrite Wd. apply memb_cons. exact Hx. }
+  split.
+  - intros a c Ha. destruct (Nat.eq_dec a b) as [->|N].
+    + rewrite Hnew in Ha. inversion Ha; subst c.
+      destruct Hsel as [Hs | [cx [-> [-> _]]]]; [apply nosel_tl, Hs | exact Nr].
+    + destruct (F a N) as [E | [-> [[p [h E]] | [cx [_ E]]]]].
+      * rewrite E in Ha. apply (Hh a c Ha).
+      * rewrite E in Ha. inversion Ha. intros x [].
+      * rewrite E in Ha. inversion Ha. intros x [].
+  - intros a sid c rest0 Ha. destruct (Nat.eq_dec a b) as [->|N].
+    + rewrite Hnew in Ha. inversion Ha; subst newc.
+      destruct Hsel as [Hs | [cx [-> [E Hwt]]]].
+      * exfalso. specialize (Hs _ (or_introl eq_refl)). discriminate.
+      * inversion E; subst. right. exists (next_actor s), []. apply Hwt. exact Hnb.
+    + assert (Hold : assoc_get (code s) a = Some (IShutdownSelect sid c :: rest0)).
+      { destruct (F a N) as [E | [-> [[p [h E]] | [cx [_ E]]]]]; [rewrite <- E; exact Ha | | ]; rewrite E in Ha; discriminate. }
+      destruct (Hw a sid c rest0 Hold) as [Hd | [w [r Hwc]]]; [left; apply Wmono; exact Hd|].
+      destruct (Nat.eq_dec w b) as [->|Nw].
+      * rewrite Hb in Hwc. inversion Hwc; subst. left. cbn in Wd. rewrite Wd. unfold memb. cbn. rewrite Nat.eqb_refl. reflexivity.
+      * right. exists w, r. destruct (F w Nw) as [E | [-> [_ | _]]]; [rewrite E; exact Hwc | | ];
+          exfalso; destruct (wi_bound s WI _ _ Hwc); lia.
+Qed.
+
+Lemma h3inv_init threads : h3inv (init_state threads).
+Proof.
+  assert (Hin: forall a c, assoc_get (code (init_state threads)) a = Some c -> exists l, c = acts l).
+  { unfold init_state. cbn [code]. intros a c H.
+    assert (Hi: In (a, c) (combine (seq 0 (length threads)) (map acts threads))).
+    { clear -H. induction (combine (seq 0 (length threads)) (map acts threads)) as [|[k v] r IH]; [discriminate|].
+      cbn in H. destruct (Nat.eqb k a) eqn:E; [apply Nat.eqb_eq in E; inversion H; subst; left; reflexivity|right; apply IH, H]. }
+    apply in_combine_r in Hi. apply in_map_iff in Hi. destruct Hi as [l [<- _]]. eauto. }
+  split.
+  - intros a c H. destruct (Hin a c H) as [l ->]. apply nosel_tl, nosel_acts.
+  - intros a sid c rest H. destruct (Hin a _ H) as [l E]. exfalso.
+    assert (X : In (IShutdownSelect sid c) (acts l)) by (rewrite <- E; left; reflexivity).
+    apply nosel_acts in X. discriminate.
+Qed.
+
+Lemma h3inv_run P cfg : forall sched s, winv s -> h3inv s -> h3inv (fst (run P cfg s sched)).
+Proof.
+  induction sched as [|a r IH]; intros s I S; cbn [run]; [exact S|].
+  destruct (mstep P cfg s a) as [[s' ls]|] eqn:E.
+  - specialize (IH s' (winv_step P cfg s a s' ls I E) (h3inv_step P cfg s a s' ls I S E)). destruct (run P cfg s' r). exact IH.
+  - apply IH; assumption.
+Qed.
+
+Theorem shutdown_has_its_waiter P cfg s : reachable P cfg s ->
+  forall a sid c rest, assoc_get (code s) a = Some (IShutdownSelect sid c :: rest) ->
+    memb sid (waiters_done s) = true \/ exists w r, assoc_get (code s) w = Some (IWaiterDone sid :: r).
+Proof.
+  intros [threads [sched ->]]. apply (h3_waiter _ (h3inv_run P cfg sched _ (winv_init threads) (h3inv_init threads))).
+Qed.
+
+(* progress with H3 discharged *)
+Theorem progress_partial2 P cfg s : reachable P cfg s ->
+  forall rank : actor -> nat,
+  (forall a h rest b, assoc_get (code s) a = Some (ILock h :: rest) -> assoc_get (seqlocks s) (r_id h) = Some b -> rank b < rank a) ->
+  (forall a i rest, assoc_get (code s) a = Some (i :: rest) -> stuckish i = true ->
+     weight (i :: rest) = 0 /\ forall rid, held rid (i :: rest) = 0) ->
+  (exists a i rest, assoc_get (code s) a = Some (i :: rest) /\ i <> ICrashed) ->
+  exists b s' ls, mstep P cfg s b = Some (s', ls).
+Proof.
+  intros R rank H1 H2 Hex. apply (progress_partial P cfg s R rank H1 H2 (shutdown_has_its_waiter P cfg s R) Hex).
+Qed.
